@@ -17,6 +17,9 @@ import VsgProofs.Lemmas.Extract3If    -- WP3
 import VsgProofs.Lemmas.Extract4Thms  -- WP3
 import VsgProofs.Lemmas.Extract5Thms  -- WP3
 import VsgProofs.Properties.C07
+import VsgProofs.Lemmas.BFull2Extract   -- wp2_bfull2
+import VsgProofs.Lemmas.BFull2Indent   -- wp2_bfull2
+import VsgModel.Generated.BFull2Rules   -- wp2_bfull2
 namespace Vsgm.C18
 open Vsgm Vsgm.TM Vsgm.TM.Lemmas
 
@@ -682,6 +685,170 @@ example : (processTokens wView.uid [1, 0, 2]).dmap.get crKey = [1] := by decide 
 example : (tokensMatching [1, 0, 2] (processTokens wView.uid [1, 0, 2]) [⟨some ("w", "y"), 1⟩]).toOption.map
     (fun r => r.map (fun t => (t.start, t.line, t.toks))) = some [(some 0, 1, [1])] := by decide +kernel
 example : Plain crKey := plain_cr
+
+/-! ### BEGIN wp2_bfull2 (extractor variants of the indent family; regions of the whole rule) -/
+
+section wp2_bfull2
+open BFull2
+
+/-- **get_tokens_at_beginning_of_line_matching_between_tokens** (fresh index): every region is the slice of the
+    file that starts where recorded; the recorded line is the line of the matched token -/
+theorem tokensAtBolBetween_sliceExact (uid : α → Option Key) (f : List α) (cs : List Cls) (a b : Cls) (incl : Bool)
+    (r : List (Toi α)) (h : tokensAtBolBetween f (processTokens uid f) cs a b incl = .ok r) :
+    ∀ t ∈ r, t.Exact f ∧ ∃ i : Nat, t.line = lineNo uid f i ∧
+      ((t.start = some (i : Int) ∧ t.toks.length = 1) ∨ (t.start = some ((i : Int) - 1) ∧ t.toks.length ≤ 2)) := by
+  intro t ht
+  obtain ⟨he, i, _, hl⟩ := tokensAtBolOf_sliceExact uid f _ r h t ht
+  exact ⟨he, i, hl⟩
+
+/-- **get_tokens_at_beginning_of_line_matching_between_tokens_unless_between_tokens** -/
+theorem tokensAtBolBetweenUnless_sliceExact (uid : α → Option Key) (f : List α) (cs : List Cls) (a b : Cls)
+    (u : List (Cls × Cls)) (incl : Bool) (r : List (Toi α))
+    (h : tokensAtBolBetweenUnless f (processTokens uid f) cs a b u incl = .ok r) :
+    ∀ t ∈ r, t.Exact f ∧ ∃ i : Nat, t.line = lineNo uid f i ∧
+      ((t.start = some (i : Int) ∧ t.toks.length = 1) ∨ (t.start = some ((i : Int) - 1) ∧ t.toks.length ≤ 2)) := by
+  intro t ht
+  obtain ⟨he, i, _, hl⟩ := tokensAtBolOf_sliceExact uid f _ r h t ht
+  exact ⟨he, i, hl⟩
+
+/-- **get_tokens_at_beginning_of_line_matching_unless_between_tokens** -/
+theorem tokensAtBolUnless_sliceExact (uid : α → Option Key) (f : List α) (cs : List Cls) (u : List (Cls × Cls))
+    (r : List (Toi α)) (h : tokensAtBolUnless f (processTokens uid f) cs u = .ok r) :
+    ∀ t ∈ r, t.Exact f ∧ ∃ i : Nat, t.line = lineNo uid f i ∧
+      ((t.start = some (i : Int) ∧ t.toks.length = 1) ∨ (t.start = some ((i : Int) - 1) ∧ t.toks.length ≤ 2)) := by
+  intro t ht
+  obtain ⟨he, i, _, hl⟩ := tokensAtBolOf_sliceExact uid f _ r h t ht
+  exact ⟨he, i, hl⟩
+
+/-- the variants only FILTER the candidate positions of the plain extractor: their regions are regions of
+    `get_tokens_at_beginning_of_line_matching` on the same file (any index) -/
+theorem tokensAtBol_variants_sub (f : List α) (ix : Index) (cs : List Cls) (a b : Cls) (u : List (Cls × Cls)) (incl : Bool) :
+    (∀ i ∈ (idxsOfList ix cs).filter (fun i => isBetweenIdx i (ix.pairIndexes a.uid b.uid).1 (ix.pairIndexes a.uid b.uid).2 incl),
+        i ∈ idxsOfList ix cs) ∧
+    (∀ i ∈ filterUnless ix (idxsOfList ix cs) u, i ∈ idxsOfList ix cs) := by
+  constructor
+  · intro i hi; exact (List.mem_filter.mp hi).1
+  · intro i hi
+    unfold filterUnless at hi
+    simp only at hi
+    split at hi
+    · exact hi
+    · exact (List.mem_filter.mp hi).1
+
+/-- **the whole `token_indent` rule (all four variants)**: every violation the model's analysis reports carries
+    the slice of the file that starts at its start index (what `vhdlFile.update` overwrites) -/
+theorem bfull2_indent_viols_exact (uid : Tok → Option Key) (P : Params) (ind : Oracle) (f : List Tok) :
+    ∀ v ∈ (sem uid P ind).analyze f,
+      v.start + v.toks.length ≤ f.length ∧ v.toks = (f.drop v.start).take v.toks.length := by
+  intro v hv
+  unfold sem at hv
+  simp only at hv
+  cases ha : analyzeE uid P ind f with
+  | error e => rw [ha] at hv; cases hv
+  | ok vs =>
+    rw [ha] at hv
+    obtain ⟨vs', hvs', rfl⟩ := List.mem_map.mp hv
+    unfold analyzeE analyzeWith at ha
+    cases ht : toisWith P f (processTokens uid f) with
+    | error e => rw [ht] at ha; cases ha
+    | ok ts =>
+      rw [ht] at ha
+      simp only [liftTM] at ha
+      have hex : ∀ t ∈ ts, t.Exact f := by
+        intro t htm
+        unfold toisWith at ht
+        cases hvar : P.variant with
+        | plain => rw [hvar] at ht; exact tokensAtBolMatching_sliceExact uid f P.cs ts ht t htm
+        | between a b incl => rw [hvar] at ht; exact (tokensAtBolBetween_sliceExact uid f P.cs a b incl ts ht t htm).1
+        | betweenUnless a b u incl => rw [hvar] at ht; exact (tokensAtBolBetweenUnless_sliceExact uid f P.cs a b u incl ts ht t htm).1
+        | unlessBetween u => rw [hvar] at ht; exact (tokensAtBolUnless_sliceExact uid f P.cs u ts ht t htm).1
+      -- every violation comes from one region
+      have hmem : ∀ (l : List (Toi Tok)) (out : List (Viol × Str)), fmE (violOf uid P ind f) l = .ok out →
+          ∀ x ∈ out, ∃ t ∈ l, violOf uid P ind f t = .ok (some x) := by
+        intro l
+        induction l with
+        | nil => intro out h x hx; simp [fmE] at h; subst h; cases hx
+        | cons t l ih =>
+          intro out h x hx
+          unfold fmE at h
+          cases hg : violOf uid P ind f t with
+          | error e => rw [hg] at h; cases h
+          | ok c =>
+            rw [hg] at h
+            cases hr : fmE (violOf uid P ind f) l with
+            | error e => rw [hr] at h; cases h
+            | ok cs' =>
+              rw [hr] at h
+              simp only [Except.ok.injEq] at h
+              subst h
+              cases c with
+              | none =>
+                obtain ⟨t', ht', e⟩ := ih cs' hr x hx
+                exact ⟨t', List.mem_cons_of_mem _ ht', e⟩
+              | some y =>
+                rw [List.mem_cons] at hx
+                rcases hx with rfl | hx
+                · exact ⟨t, List.mem_cons_self .., hg⟩
+                · obtain ⟨t', ht', e⟩ := ih cs' hr x hx
+                  exact ⟨t', List.mem_cons_of_mem _ ht', e⟩
+      obtain ⟨t, htm, hvo⟩ := hmem ts vs ha vs' hvs'
+      obtain ⟨s, hs, hlen, htk⟩ := hex t htm
+      unfold violOf at hvo
+      rw [hs] at hvo
+      simp only at hvo
+      cases hj : judge P.style P.size (fun k => indAt uid ind f ((s : Int).toNat + k)) t.toks with
+      | none => rw [hj] at hvo; cases hvo
+      | some al =>
+        rw [hj] at hvo
+        simp only at hvo
+        cases hsol : solution P.style P.size al.1 al.2 with
+        | error e => rw [hsol] at hvo; cases hvo
+        | ok sol =>
+          rw [hsol] at hvo
+          simp only [Except.ok.injEq, Option.some.injEq] at hvo
+          subst hvo
+          simp only [Int.toNat_natCast]
+          exact ⟨hlen, htk⟩
+
+/-- executable form of `CsOk` -/
+def csOkB (cs : List Cls) : Bool :=
+  decide (cs.map (·.uid)).Nodup &&
+    cs.all fun c => match c.uid with
+      | some k => decide (k ≠ (kLogical, kLogical)) && decide (k ≠ commaKey) && decide (k ≠ openParenKey) &&
+          decide (k ≠ wsKey) && decide (k ≠ crKey)
+      | none => false
+
+theorem csOkB_sound (cs : List Cls) (h : csOkB cs = true) : CsOk cs := by
+  unfold csOkB at h
+  simp only [Bool.and_eq_true, decide_eq_true_eq, List.all_eq_true] at h
+  refine ⟨h.1, ?_⟩
+  intro c hc
+  have := h.2 c hc
+  cases hu : c.uid with
+  | none => rw [hu] at this; cases this
+  | some k =>
+    rw [hu] at this
+    simp only [Bool.and_eq_true, decide_eq_true_eq] at this
+    exact ⟨k, rfl, ⟨this.1.1.1.1, this.1.1.1.2, this.1.1.2⟩, this.1.2, this.2⟩
+
+/-- **table fact, all 102 indent rules** (generated from the rule objects): the `lTokens` of every rule satisfy the
+    guard of the whole-rule theorems — distinct ids, no alias key, neither whitespace nor carriage return -/
+theorem bfull2_indentRule_csOk :
+    ∀ r ∈ Gen.indentRuleTable, csOkB (r.cs.map fun c => ({ uid := Gen.classUidList.getD c none, idx := c } : Cls)) = true := by
+  decide +kernel
+
+/-- … and the class the fix creates is `parser.whitespace`; 93 rules use the plain extractor, 9 a variant -/
+theorem bfull2_indent_table :
+    Gen.classUidList.getD Gen.wsCls none = some wsKey ∧
+    (Gen.indentRuleTable.filter (·.variant == 0)).length = 93 ∧ Gen.indentRuleTable.length = 102 := by
+  decide +kernel
+
+example : CsOk [({ uid := some ("signal_declaration", "signal_keyword"), idx := 3 } : Cls)] := csOkB_sound _ (by decide +kernel)
+
+end wp2_bfull2
+
+/-! ### END wp2_bfull2 -/
+
 
 end Vsgm.C18
 
